@@ -6,6 +6,7 @@ import AdfObdd.ServerConcreteProofs
 import AdfObdd.ServerHybrid
 import AdfObdd.HybridExample
 import AdfObdd.ServerFuel
+import AdfObdd.ServerFuelBound
 import AdfObdd.ServerLive
 import AdfObdd.ServerParseLink
 import AdfObdd.Props.C17
@@ -1300,7 +1301,9 @@ above (third review: NOT the `libEnv` theorems `reachable_served_answer_checked`
 `reachable_served_answer(_naive)`, which stay stated at 10^6 - transfer them with `solve_fuel_monotone`)
 that mentions `SrvA.strategyHalts 1000000 a s` is the instance `F0 = F = 10^6` of a statement "for every bound
 `F ≥ F0`", `F0` any bound within which the search halts - and such an `F0` always exists
-(`stored_answers_exact_every_large_bound`). -/
+(`stored_answers_exact_every_large_bound`); explicitly `F0 = 2^(n+3)` for `n` statements
+(`strategy_halts_within_explicit_bound`), which is `≤ 10^6` for `n ≤ 16`
+(`strategy_halts_for_small_frameworks`). -/
 
 /-- **solve_fuel_monotone**: if the strategy's search halts within `F` iterations, the solve task returns
 the same result, and still halts, for every bound `F' ≥ F` -/
@@ -1324,6 +1327,108 @@ theorem stored_answers_exact_driver_instance (F0 : Nat) (hF0 : F0 ≤ 1000000) (
       (SrvA.storedI3 res).Perm (Cli.specSection n (CliF.tablesOf n fms) (SrvA.secOf s)) := by
   obtain ⟨res, h1, h2⟩ := stored_answers_exact_all_bounds F0 a n fms s h hh
   exact ⟨res, by rw [← solve_model_is_bound_instance]; exact (h1 _ hF0).1, fun F hF => (h1 F hF).1, h2⟩
+
+/-! ### the explicit bound (both reviews' "fuel" items)
+
+C05's termination argument with the iterations counted (`C05.ng_search_halts_within_explicit_bound`) bounds
+the search of a framework with `n` statements by `NConc.ngBound n = 2^(n+3)` iterations. So the hypothesis
+`SrvA.strategyHalts 1000000 a s` of the `served_answer*` / `reachable_served_answer*` theorems is PROVED
+whenever the stored framework denotes at most 16 conditions (`2^19 = 524288 ≤ 10^6 < 2^20`). Beyond that
+size it remains a hypothesis: the Rust loop has no bound, the bound is necessarily exponential, and for
+larger frameworks "halted within 10^6" is established by evaluation only. -/
+
+/-- the strategy's search has halted within every bound `≥ 2^(n+3)` -/
+theorem strategy_halts_within_explicit_bound (a : SAdf) (n : Nat) (fms : List Fm) (s : Strategy)
+    (h : SrvA.Denotes a n fms) : ∀ fuel, NConc.ngBound n ≤ fuel → SrvA.strategyHalts fuel a s = true :=
+  SrvA.strategyHalts_within a n fms s h
+
+/-- **`strategyHalts 1000000 a s` holds for every stored framework with at most 16 statements**, all six
+strategies -/
+theorem strategy_halts_for_small_frameworks (a : SAdf) (n : Nat) (fms : List Fm) (s : Strategy)
+    (h : SrvA.Denotes a n fms) (h16 : n ≤ 16) : SrvA.strategyHalts 1000000 a s = true :=
+  SrvA.strategyHalts_of_le_16 a n fms s h h16
+
+/-- ONE result for all bounds `≥ 2^(n+3)`, the specification's answer - no halting hypothesis -/
+theorem stored_answers_exact_within_explicit_bound (a : SAdf) (n : Nat) (fms : List Fm) (s : Strategy)
+    (h : SrvA.Denotes a n fms) :
+    ∃ res, (∀ F, NConc.ngBound n ≤ F → SrvA.solveAdfF F a s = .ok res ∧ SrvA.strategyHalts F a s = true) ∧
+      (SrvA.storedI3 res).Perm (Cli.specSection n (CliF.tablesOf n fms) (SrvA.secOf s)) :=
+  SrvA.stored_answers_exact_within a n fms s h
+
+/-- the driver's model `solveAdf` (bound 10^6) on a stored framework with at most 16 statements: exact for
+all six strategies, nothing assumed about bounds -/
+theorem stored_answers_exact_driver_model_small (a : SAdf) (n : Nat) (fms : List Fm) (s : Strategy)
+    (h : SrvA.Denotes a n fms) (h16 : n ≤ 16) :
+    ∃ res, solveAdf a s = .ok res ∧
+      (SrvA.storedI3 res).Perm (Cli.specSection n (CliF.tablesOf n fms) (SrvA.secOf s)) := by
+  obtain ⟨res, h1, h2⟩ := stored_answers_exact_within_explicit_bound a n fms s h
+  refine ⟨res, ?_, h2⟩
+  rw [← solve_model_is_bound_instance]
+  exact (h1 1000000 ((C05.explicit_bound_within_driver_bound_iff n).mpr h16)).1
+
+/-- **`served_answer_for_code` WITHOUT the fuel hypothesis** (naive parsing) for submitted texts with at
+most 16 statements: the hypotheses `hn` and `hh` of `served_answer_for_code` are replaced by `h16` -/
+theorem served_answer_for_code_small_frameworks (o : Oracle) (st : State String SHash SAdf SRes) (j n jar : Nat)
+    (t : TaskRec String SAdf) (code : String) (a : SAdf) (r : SRes) (s : Strategy)
+    (ht : nthOf j n st.db.tasks = some t) (hin : t.input = .solve a s)
+    (hlive : t.blockingDone = true ∧ t.written = false)
+    (hparse : (SrvC.libEnv o).parse .naive code = .ok (a, r)) (h16 : a.names.length ≤ 16)
+    (p : Problem String SAdf SRes) (hp : st.db.problems.find? (isProb t.username t.name) = some p)
+    (hs : st.sess jar = some t.username) :
+    ∃ (fms : List Fm) (res : SRes) (i : Info String SRes),
+      conditions code = .ok (a.names, fms) ∧
+      (ServerM.step (SrvC.libEnv o) (stepEv (SrvC.libEnv o) st (.write j n)).1 ⟨jar, .get t.name⟩).2 = ⟨200, .keep, .problem i⟩ ∧
+      i.res.get s = .some res ∧ (∀ s', s' ≠ s → i.res.get s' = p.res.get s') ∧
+      SrvA.PropAnswer a.names.length (fms.map Fm.sem) s (SrvA.storedI3 res) :=
+  SrvC.served_answer_for_code_le_16 o st j n jar t code a r s ht hin hlive hparse h16 p hp hs
+
+/-- the same for BOTH parsing strategies on the service with the modelled hybrid arm -/
+theorem served_answer_for_code_any_parsing_small_frameworks {T : Type} (Lf : Nat → Bio.Lib T) (dumpf : Nat → T → List Node)
+    (st : State String SHash SAdf SRes) (j n jar : Nat)
+    (t : TaskRec String SAdf) (pg : Parsing) (code : String) (a : SAdf) (r : SRes) (s : Strategy)
+    (ht : nthOf j n st.db.tasks = some t) (hin : t.input = .solve a s)
+    (hlive : t.blockingDone = true ∧ t.written = false)
+    (hparse : (hybEnv Lf dumpf).parse pg code = .ok (a, r)) (h16 : a.names.length ≤ 16)
+    (W : Bio.Lawful (Lf a.names.length) a.names.length) (hdump : Bio.DumpSpec W (dumpf a.names.length))
+    (p : Problem String SAdf SRes) (hp : st.db.problems.find? (isProb t.username t.name) = some p)
+    (hs : st.sess jar = some t.username) :
+    ∃ (fms : List Fm) (res : SRes) (i : Info String SRes),
+      conditions code = .ok (a.names, fms) ∧
+      (ServerM.step (hybEnv Lf dumpf) (ServerM.stepEv (hybEnv Lf dumpf) st (.write j n)).1 ⟨jar, .get t.name⟩).2 =
+        ⟨200, .keep, .problem i⟩ ∧
+      i.res.get s = .some res ∧ (∀ s', s' ≠ s → i.res.get s' = p.res.get s') ∧
+      SrvA.PropAnswer a.names.length (fms.map Fm.sem) s (SrvA.storedI3 res) :=
+  SrvC.served_answer_for_code_any_parsing_le_16 Lf dumpf st j n jar t pg code a r s ht hin hlive hparse h16 W hdump p hp hs
+
+/-- … and on the driver's service for a hybrid document whose adopted table passed the printed check -/
+theorem served_answer_for_code_hybrid_checked_small_frameworks (o : Oracle) (st : State String SHash SAdf SRes)
+    (j n jar : Nat) (t : TaskRec String SAdf) (code : String) (a : SAdf) (r : SRes) (s : Strategy)
+    (ht : nthOf j n st.db.tasks = some t) (hin : t.input = .solve a s)
+    (hlive : t.blockingDone = true ∧ t.written = false)
+    (hparse : (SrvC.libEnv o).parse .hybrid code = .ok (a, r)) (hchk : storedAdfOK' code a = "ok")
+    (h16 : a.names.length ≤ 16)
+    (p : Problem String SAdf SRes) (hp : st.db.problems.find? (isProb t.username t.name) = some p)
+    (hs : st.sess jar = some t.username) :
+    ∃ (fms : List Fm) (res : SRes) (i : Info String SRes),
+      conditions code = .ok (a.names, fms) ∧
+      (ServerM.step (SrvC.libEnv o) (ServerM.stepEv (SrvC.libEnv o) st (.write j n)).1 ⟨jar, .get t.name⟩).2 =
+        ⟨200, .keep, .problem i⟩ ∧
+      i.res.get s = .some res ∧ (∀ s', s' ≠ s → i.res.get s' = p.res.get s') ∧
+      SrvA.PropAnswer a.names.length (fms.map Fm.sem) s (SrvA.storedI3 res) :=
+  SrvC.served_answer_for_code_hybrid_checked_le_16 o st j n jar t code a r s ht hin hlive hparse hchk h16 p hp hs
+
+/-- non-vacuity, KERNEL-checked (no evaluation): on the stored framework `a1` of
+`s(a).s(b).ac(a,neg(b)).ac(b,neg(a)).` the search of `StableNogood` has halted within the driver's bound,
+and the driver's model stores exactly the two stable models -/
+example : SrvA.strategyHalts 1000000 a1 .stableNogood = true ∧
+    ∃ res, solveAdf a1 .stableNogood = .ok res ∧
+      (SrvA.storedI3 res).Perm [[some true, some false], [some false, some true]] := by
+  refine ⟨strategy_halts_for_small_frameworks a1 2 _ .stableNogood denotes1 (by decide), ?_⟩
+  obtain ⟨res, h1, h2⟩ := stored_answers_exact_driver_model_small a1 2 _ .stableNogood denotes1 (by decide)
+  have e : Cli.specSection 2 (CliF.tablesOf 2 [.not (.atom 1), .not (.atom 0)]) (SrvA.secOf .stableNogood) =
+      [[some true, some false], [some false, some true]] := by decide
+  rw [e] at h2
+  exact ⟨res, h1, h2⟩
 
 -- non-vacuity (by evaluation): on the framework of `code1` the search of `StableNogood` halts within 50
 -- iterations, and the results for the bounds 50, 1000 and 10^6 coincide
@@ -1559,3 +1664,9 @@ end C16
 #print axioms C16.accepted_solve_eventually_stored
 #print axioms C16.sequential_requests_sentence_partial
 #print axioms C16.add_race_breaks_the_sentence
+#print axioms C16.strategy_halts_within_explicit_bound
+#print axioms C16.strategy_halts_for_small_frameworks
+#print axioms C16.stored_answers_exact_driver_model_small
+#print axioms C16.served_answer_for_code_small_frameworks
+#print axioms C16.served_answer_for_code_any_parsing_small_frameworks
+#print axioms C16.served_answer_for_code_hybrid_checked_small_frameworks
